@@ -7,6 +7,7 @@ import (
 	"sort"
 	"strings"
 	"sync"
+	"sync/atomic"
 	"time"
 
 	"github.com/oxia-db/oxia/common/constant"
@@ -117,14 +118,23 @@ func init() {
 }
 
 // waitFor waits until cond() holds (evaluated under the lock) or SignalTimeout passes.
+// (a tree in which a signal never comes would cost SignalTimeout per call: after a few misses in this
+// process the wait is cut short - a miss is only reported if it reproduces on re-execution anyway)
+var missedSignals atomic.Int32
+
 func (c *SessCtl) waitFor(cond func() bool) bool {
-	deadline := time.Now().Add(SignalTimeout)
-	stop := time.AfterFunc(SignalTimeout, func() { c.mu.Lock(); c.cond.Broadcast(); c.mu.Unlock() })
+	to := SignalTimeout
+	if missedSignals.Load() >= 3 {
+		to = 300 * time.Millisecond
+	}
+	deadline := time.Now().Add(to)
+	stop := time.AfterFunc(to, func() { c.mu.Lock(); c.cond.Broadcast(); c.mu.Unlock() })
 	defer stop.Stop()
 	c.mu.Lock()
 	defer c.mu.Unlock()
 	for !cond() {
 		if !time.Now().Before(deadline) {
+			missedSignals.Add(1)
 			return false
 		}
 		c.cond.Wait()
